@@ -1,16 +1,19 @@
-// Package selftest: small programs with known state counts / known bugs that
-// validate the scheduler, the fingerprints and the explorers.
+// Package selftest: small programs with known behaviour that validate the
+// scheduler, the fingerprints, the reductions and the explorers.  Run by
+// ./selftest.sh (and setup.sh); not a property check.
 package selftest
 
 import (
 	"fmt"
+	"sort"
+	"strings"
 
 	"verif/explore"
 	"verif/runner"
 	"verif/vs"
 )
 
-// indep: k goroutines, each doing m sends into its own buffered channel: (m+1)^k states.
+// indep: k goroutines, each doing m sends into its own buffered channel.
 func indep(k, m int) explore.Scenario {
 	return explore.Scenario{
 		Name: fmt.Sprintf("selftest/indep/k%d/m%d", k, m), Mode: "S1",
@@ -18,7 +21,7 @@ func indep(k, m int) explore.Scenario {
 			done := 0
 			return explore.Instance{
 				Run: func() {
-					fin := make(chan bool, k)
+					fin := make(chan bool, k+1)
 					for i := 0; i < k; i++ {
 						go func() {
 							ch := make(chan int, m+1)
@@ -33,11 +36,247 @@ func indep(k, m int) explore.Scenario {
 						done++
 					}
 				},
-				Check:   func(r *vs.Result) []string { if done != k { return []string{"hang"} }; return nil },
+				Check: func(r *vs.Result) []string {
+					if done != k {
+						return []string{"hang"}
+					}
+					return nil
+				},
 				Outcome: func() string { return fmt.Sprint(done) },
 			}
 		},
 	}
+}
+
+// lostUpdate: two goroutines do read-then-write on a shared counter through two separate visible steps.
+func lostUpdate(fixed bool) explore.Scenario {
+	return explore.Scenario{
+		Name: fmt.Sprintf("selftest/lostupdate/fixed=%v", fixed), Mode: "S1",
+		New: func() explore.Instance {
+			counter := 0
+			return explore.Instance{
+				Run: func() {
+					fin := make(chan bool, 3)
+					for i := 0; i < 2; i++ {
+						go func() {
+							if fixed {
+								vs.Atomic("ctr", func() { counter++ })
+							} else {
+								v := 0
+								vs.Atomic("ctr", func() { v = counter })
+								vs.Atomic("ctr", func() { counter = v + 1 })
+							}
+							fin <- true
+						}()
+					}
+					<-fin
+					<-fin
+				},
+				Check: func(r *vs.Result) []string {
+					if counter != 2 {
+						return []string{fmt.Sprintf("lost update | counter=%d", counter)}
+					}
+					return nil
+				},
+				Outcome: func() string { return fmt.Sprint(counter) },
+			}
+		},
+	}
+}
+
+// abba: two goroutines take two channel-semaphores in opposite (buggy) or the same (fixed) order.
+func abba(fixed bool) explore.Scenario {
+	return explore.Scenario{
+		Name: fmt.Sprintf("selftest/abba/fixed=%v", fixed), Mode: "S1",
+		New: func() explore.Instance {
+			done := 0
+			return explore.Instance{
+				Run: func() {
+					a := make(chan bool, 2)
+					b := make(chan bool, 2)
+					a <- true
+					a <- true // capacity 2, filled: acquiring = receiving... use as binary semaphores below
+					<-a
+					b <- true
+					fin := make(chan bool, 3)
+					go func() { <-a; <-b; b <- true; a <- true; fin <- true }()
+					go func() {
+						if fixed {
+							<-a
+							<-b
+							b <- true
+							a <- true
+						} else {
+							<-b
+							<-a
+							a <- true
+							b <- true
+						}
+						fin <- true
+					}()
+					<-fin
+					done++
+					<-fin
+					done++
+				},
+				Check: func(r *vs.Result) []string {
+					if done != 2 {
+						return []string{"deadlock | AB/BA"}
+					}
+					return nil
+				},
+				Outcome: func() string { return fmt.Sprint(done) },
+			}
+		},
+	}
+}
+
+// dropped: a non-blocking send into a small buffer loses an event iff the consumer is slow.
+func dropped(fixed bool) explore.Scenario {
+	return explore.Scenario{
+		Name: fmt.Sprintf("selftest/dropped/fixed=%v", fixed), Mode: "S1",
+		New: func() explore.Instance {
+			got := 0
+			return explore.Instance{
+				Run: func() {
+					ch := make(chan int, 2)
+					fin := make(chan bool, 2)
+					go func() {
+						for i := 0; i < 3; i++ {
+							if fixed {
+								ch <- i
+							} else {
+								select {
+								case ch <- i:
+								default:
+								}
+							}
+						}
+						close(ch)
+					}()
+					go func() {
+						for range ch {
+							got++
+						}
+						fin <- true
+					}()
+					<-fin
+				},
+				Check: func(r *vs.Result) []string {
+					if got != 3 {
+						return []string{fmt.Sprintf("dropped | got %d of 3", got)}
+					}
+					return nil
+				},
+				Outcome: func() string { return fmt.Sprint(got) },
+			}
+		},
+	}
+}
+
+// timerRace: a select between a timer and a message; both outcomes must be explored under the lazy policy.
+func timerRace() explore.Scenario {
+	return explore.Scenario{
+		Name: "selftest/timerrace", Mode: "S1", Cfg: vs.Config{Timers: vs.TimersLazy},
+		New: func() explore.Instance {
+			out := ""
+			return explore.Instance{
+				Run: func() {
+					msg := make(chan int, 2)
+					go func() { msg <- 1 }()
+					t := vs.NewTimer(5)
+					select {
+					case <-t.C:
+						out = "timer"
+					case <-msg:
+						out = "msg"
+					}
+				},
+				Outcome: func() string { return out },
+			}
+		},
+	}
+}
+
+func outcomes(st *explore.Stats) string {
+	var ks []string
+	for k := range st.Outcomes {
+		ks = append(ks, k)
+	}
+	sort.Strings(ks)
+	return strings.Join(ks, ",")
+}
+
+func extra(tier string, seed int64) *runner.ExtraResult {
+	res := &runner.ExtraResult{Name: "explorer self tests", Complete: true, Coverage: map[string]interface{}{}}
+	fail := func(format string, args ...interface{}) {
+		msg := fmt.Sprintf(format, args...)
+		res.Violations = append(res.Violations, explore.Violation{Scenario: "selftest", Messages: []string{msg}, Signature: "selftest :: " + msg})
+	}
+	run := func(sc explore.Scenario, mode string, bound int) *explore.Stats {
+		st := explore.Explore(sc, explore.Options{Mode: mode, Bound: bound})
+		res.Evaluations += st.Executions
+		res.States += st.States
+		res.Transitions += st.Transitions
+		if !st.Complete {
+			fail("%s: exploration incomplete (%s)", sc.Name, st.CapHit)
+		}
+		return st
+	}
+	// known-bug programs are found, their fixed versions are clean
+	for _, mk := range []func(bool) explore.Scenario{lostUpdate, abba, dropped} {
+		buggy := run(mk(false), "S1", 0)
+		fixed := run(mk(true), "S1", 0)
+		if buggy.ViolationCount == 0 {
+			fail("%s: known bug not found", mk(false).Name)
+		} else {
+			v := buggy.Violations[0]
+			m1, _, _ := explore.Replay(mk(false), v.Choices)
+			m2, _, _ := explore.Replay(mk(false), v.Choices)
+			if len(m1) == 0 || strings.Join(m1, "|") != strings.Join(m2, "|") {
+				fail("%s: violation does not replay deterministically (%v / %v)", mk(false).Name, m1, m2)
+			}
+			// iterative deviation bounding finds it with few deviations
+			found := -1
+			for d := 0; d <= 3 && found < 0; d++ {
+				if run(mk(false), "S2", d).ViolationCount > 0 {
+					found = d
+				}
+			}
+			res.Coverage[mk(false).Name+" found with deviations"] = found
+			if found < 0 {
+				fail("%s: not found within 3 deviations", mk(false).Name)
+			}
+		}
+		if fixed.ViolationCount != 0 {
+			fail("%s: fixed version reports %v", mk(true).Name, fixed.Violations)
+		}
+		res.Distinct += 2
+	}
+	// reductions do not change the set of terminal outcomes; S2 with a large bound sees what S1 sees
+	for _, sc := range []explore.Scenario{indep(2, 2), lostUpdate(false), dropped(false), timerRace()} {
+		a := run(sc, "S1", 0)
+		vs.NoEager = true
+		b := run(sc, "S1", 0)
+		vs.NoEager = false
+		c := run(sc, "S2", 50)
+		if outcomes(a) != outcomes(b) {
+			fail("%s: eager reductions change the outcome set: %s vs %s", sc.Name, outcomes(a), outcomes(b))
+		}
+		if outcomes(a) != outcomes(c) {
+			fail("%s: S2 with a large bound sees %s, S1 sees %s", sc.Name, outcomes(c), outcomes(a))
+		}
+		res.Distinct++
+		res.Samples = append(res.Samples, fmt.Sprintf("%s: outcomes {%s}; states S1=%d, without eager rules=%d", sc.Name, outcomes(a), a.States, b.States))
+	}
+	if o := outcomes(run(timerRace(), "S1", 0)); o != "msg,timer" {
+		fail("timer race: expected both outcomes, got %s", o)
+	}
+	// independent goroutines: the state space is the product of the local ones, whatever the order
+	if st := run(indep(3, 2), "S1", 0); st.Executions == 0 || len(st.Outcomes) != 1 {
+		fail("indep: %d executions, outcomes %s", st.Executions, outcomes(st))
+	}
+	return res
 }
 
 func Property() runner.Property {
@@ -46,8 +285,12 @@ func Property() runner.Property {
 		Scenarios: func(tier string) []runner.Sc {
 			return []runner.Sc{
 				{Scenario: indep(2, 3)},
-				{Scenario: indep(3, 3)},
+				{Scenario: indep(3, 3), Split: true},
+				{Scenario: lostUpdate(true)},
+				{Scenario: abba(true)},
+				{Scenario: dropped(true)},
 			}
 		},
+		Extra: extra,
 	}
 }
